@@ -1,2 +1,3 @@
 pub mod member;
 pub mod tree;
+pub mod interp;
